@@ -46,12 +46,14 @@ struct _map {
 struct _map_itr {
     m_map_t *m;
     map_elem *curr;
+    size_t left;        // slots still to be scanned, current one included
     bool removed;
 };
 
 static map_elem *hashmap_entry_find(const m_map_t *m, const char *key, bool find_empty);
 static size_t hashmap_table_min_size_calc(size_t num_entries);
 static size_t hashmap_calc_index(const m_map_t *m, const char *key);
+static size_t hashmap_scan_start(const m_map_t *m);
 static size_t hashmap_hash_string(const char *key);
 static int hashmap_rehash(m_map_t *m);
 static int hashmap_put(m_map_t *m, const char *key, void *value);
@@ -94,6 +96,22 @@ static inline size_t hashmap_table_min_size_calc(size_t num_entries) {
  */
 static inline size_t hashmap_calc_index(const m_map_t *m, const char *key) {
     return MAP_SIZE_MOD(m, hashmap_hash_string(key));
+}
+
+/*
+ * Slot where a scan of the whole table starts: the one following the first
+ * empty slot (load factor is < 1: there always is one).
+ * The scan then wraps around the end of the table; this way no chain of
+ * colliding entries is split between its end and its start, and removing the
+ * current entry while iterating (that shifts back the rest of its chain)
+ * can never move an already visited entry under the cursor.
+ */
+static inline size_t hashmap_scan_start(const m_map_t *m) {
+    size_t index = 0;
+    while (index < m->table_size - 1 && m->table[index].key) {
+        index++;
+    }
+    return MAP_PROBE_NEXT(m, index);
 }
 
 /*
@@ -285,25 +303,31 @@ _public_ int m_map_itr_next(m_map_itr_t **itr) {
     M_PARAM_ASSERT(itr && *itr);
     
     m_map_itr_t *i = *itr;
+    size_t index;
     if (!i->curr) {
         /* First time: start from first elem */
-        i->curr = &i->m->table[0];
+        index = hashmap_scan_start(i->m);
+        i->left = i->m->table_size;
     } else {
-        /* Normally: start from subsequent element */
-        i->curr = i->curr + 1 - i->removed;
-    }
-    
-    i->removed = false;
-    bool found = false;
-    for (; i->curr < &i->m->table[i->m->table_size]; i->curr++) {
-        if (i->curr->key) {
-            found = true;
-            break;
+        index = i->curr - i->m->table;
+        if (!i->removed) {
+            /* Normally: start from subsequent element */
+            index = MAP_PROBE_NEXT(i->m, index);
+            i->left--;
         }
     }
     
+    i->removed = false;
+    for (; i->left > 0; i->left--) {
+        if (i->m->table[index].key) {
+            break;
+        }
+        index = MAP_PROBE_NEXT(i->m, index);
+    }
+    i->curr = &i->m->table[index];
+    
     /* Automatically free it */
-    if (!found) {
+    if (i->left == 0) {
         memhook._free(*itr);
         *itr = NULL;
     }
@@ -381,7 +405,9 @@ _public_ int m_map_iterate(const m_map_t *m, m_map_cb fn, void *userptr) {
     M_PARAM_ASSERT(fn);
     M_PARAM_ASSERT(m_map_len(m) > 0);
     
-    MAP_FOREACH(m->table, m->table_size, {
+    const size_t start = hashmap_scan_start(m);
+    for (size_t i = 0; i < m->table_size; i++) {
+        map_elem *entry = &m->table[MAP_SIZE_MOD(m, start + i)];
         if (!entry->key) {
             continue;
         }
@@ -398,12 +424,12 @@ _public_ int m_map_iterate(const m_map_t *m, m_map_cb fn, void *userptr) {
         }
         if (entry->key != key) {
             /* Run this entry again if fn() deleted it */
-            --entry;
+            --i;
         } else if (num_entries != m->length) {
             /* Stop immediately if fn put/removed another entry */
             return -EACCES;
         }
-    });
+    }
     return 0;
 }
 
